@@ -1,4 +1,4 @@
-import Proofs.C01Total
+import Proofs.C01Sized
 /-!
 Concrete instance used by the non-vacuity `example`s of Props/C01.lean and Props/C09.lean:
 six points on a line, `0 1 3 | 10 12 15`, distance = absolute difference; start state = nearest-center
